@@ -37,16 +37,17 @@ def classify(path):
 
 def dir_state(d):
     f = os.path.join(d, JOB + ".npz")
-    return classify(f) + "/" + classify(f + ".bak")
+    return classify(f) + "/" + classify(f + ".bak") + "/" + classify(f + ".tmp.npz")
 
 
-def prepare(d, f, b):
-    """initial directory: a / p / c<j> for F and B"""
+def prepare(d, f, b, t="a"):
+    """initial directory: a / p / c<j> for F, B and the temporary file T"""
     os.makedirs(d, exist_ok=True)
-    for kind, path in ((f, os.path.join(d, JOB + ".npz")), (b, os.path.join(d, JOB + ".npz.bak"))):
+    for kind, path in ((f, os.path.join(d, JOB + ".npz")), (b, os.path.join(d, JOB + ".npz.bak")),
+                       (t, os.path.join(d, JOB + ".npz.tmp.npz"))):
         if kind == "a":
             continue
-        tmp = path + ".tmp.npz"
+        tmp = path + ".prep.npz"
         np.savez(tmp, step=np.array(int(kind[1:]) if kind[0] == "c" else 0), a=np.arange(5.0),
                  probe=np.array([1.0]), z=np.ones(3))
         data = open(tmp, "rb").read()
@@ -70,6 +71,7 @@ def child(dirpath, nsteps, crash_event, crash_savez_step, count_file):
     from renormalizer.utils.tdmps import TdMpsJob
     fpath = os.path.realpath(os.path.join(dirpath, JOB + ".npz"))
     bpath = fpath + ".bak"
+    tpath = fpath + ".tmp.npz"
     state = dict(n=0, log=[])
 
     def relevant(p):
@@ -77,7 +79,7 @@ def child(dirpath, nsteps, crash_event, crash_savez_step, count_file):
             p = os.path.realpath(os.fspath(p))
         except TypeError:
             return False
-        return p in (fpath, bpath)
+        return p in (fpath, bpath, tpath)
 
     def hook(event, args):
         hit = False
@@ -148,12 +150,12 @@ def run_child(dirpath, nsteps, crash_event, crash_savez_step, count_file):
     return os.waitstatus_to_exitcode(status)
 
 
-def observe_run(base, f0, b0, nsteps):
+def observe_run(base, f0, b0, nsteps, t0="a"):
     """returns (observed list of 'k:F/B', event log) for a run of nsteps dumps from (f0,b0);
     built by killing a fresh run before every mutating event and inside every savez"""
     cf = os.path.join(base, "count.txt")
     d = os.path.join(base, "ref")
-    prepare(d, f0, b0)
+    prepare(d, f0, b0, t0)
     rc = run_child(d, nsteps, -1, -1, cf)
     log = open(cf).read() if os.path.exists(cf) else ""
     if rc != 0:
@@ -166,7 +168,7 @@ def observe_run(base, f0, b0, nsteps):
     before = []
     for i in range(len(events)):
         d = os.path.join(base, f"e{i}")
-        prepare(d, f0, b0)
+        prepare(d, f0, b0, t0)
         rc = run_child(d, nsteps, i, -1, cf)
         if rc != 17:
             return None, f"crash before event {i} not reached rc={rc}"
@@ -175,7 +177,7 @@ def observe_run(base, f0, b0, nsteps):
     inside = {}
     for k in range(1, nsteps + 1):
         d = os.path.join(base, f"s{k}")
-        prepare(d, f0, b0)
+        prepare(d, f0, b0, t0)
         rc = run_child(d, nsteps, -1, k, cf)
         if rc != 18:
             return None, f"crash inside savez of step {k} not reached rc={rc}"
@@ -208,27 +210,25 @@ def main():
     reqs, cases = [], []
     for f0 in kinds_f:
         for b0 in kinds_b:
-            reqs.append(f"run {nsteps} 1 {f0 if f0 != 'p' else 'p0'} {b0 if b0 != 'p' else 'p0'}")
-            cases.append((f0, b0))
+            for t0 in ("a", "p"):
+                reqs.append(f"run {nsteps} 1 {f0 if f0 != 'p' else 'p0'} {b0 if b0 != 'p' else 'p0'} {t0 if t0 != 'p' else 'p0'}")
+                cases.append((f0, b0, t0))
     replies = common.run_driver("RenoVerif/Driver/C14.lean", reqs)
 
     def canon(tok):   # drop step of partial files: p<k> -> p
         k, st = tok.split(":")
-        f, b = st.split("/")
-        f = "p" if f.startswith("p") else f
-        b = "p" if b.startswith("p") else b
-        return f"{f}/{b}"
+        return "/".join("p" if x.startswith("p") else x for x in st.split("/"))
 
     ncrash = 0
     ntraces = 0
     with tempfile.TemporaryDirectory(prefix="c14_") as base:
-        for (f0, b0), rep in zip(cases, replies):
+        for (f0, b0, t0), rep in zip(cases, replies):
             model = rep.split()
-            seq, events = observe_run(base, f0, b0, nsteps)
+            seq, events = observe_run(base, f0, b0, nsteps, t0)
             ntraces += 1
             if seq is None:
                 run.violation("corr:trace-unobservable", dict(correspondence="fault-injection harness could not drive dump_dict",
-                                                              initial=[f0, b0], detail=events), no_input=True)
+                                                              initial=[f0, b0, t0], detail=events), no_input=True)
                 continue
             ncrash += len(seq)
             # model runTrace lists, per dump k, d :: states after each op; consecutive dumps repeat the
@@ -241,32 +241,35 @@ def main():
                     continue   # initial state of dump k duplicates final state of dump k-1
                 mseq.append((k, s))
             oseq = [s for _, s in seq]
-            run.count(f"init={f0}/{b0}")
-            run.sample(dict(initial=[f0, b0], steps=nsteps, fs_events=events, observed=oseq, model=[s for _, s in mseq]), limit=3)
-            # property oracle on the observed states (L3): `done` = number of completed np.savez calls of
-            # this job; once done >= 1 every visible state must hold a complete file of step >= done
-            # (inside the savez of step done+1 that is "the previous step", afterwards "the current step").
-            done = 0
+            run.count(f"init={f0}/{b0}/{t0}")
+            run.sample(dict(initial=[f0, b0, t0], steps=nsteps, fs_events=events, observed=oseq, model=[s for _, s in mseq]), limit=3)
+            # property oracle on the observed states (L3), at full strength.  (a) if the directory held a complete result (F or its backup) when the job started, or a dump has been
+            # completed, every visible state must hold a complete RESULT file (F or B; the temporary file does not count);
+            # (b) once done >= 1 that file must be of step >= done of THIS job (inside the dump of step done+1 that is
+            # "the previous step", afterwards "the current step").  Files of the OLD job carry the markers 6, 7.
+            done = 0        # highest step of THIS job seen complete in a result file so far (protocol independent)
             bad = None
+            had_complete = f0.startswith("c") or b0.startswith("c")
             for (tag, st) in seq:
-                if done >= 1:
-                    steps_present = [int(x[1:]) for x in st.split("/") if x.startswith("c")]
-                    # files of the OLD job (markers 6, 7) do not count for this job's steps
-                    steps_present = [x for x in steps_present if x <= nsteps]
-                    if not any(x >= done for x in steps_present) and bad is None:
-                        bad = dict(initial=[f0, b0], at=tag, directory=st, completed_dumps=done,
-                                   trace=seq, what="no complete loadable result file of the current or previous step")
-                if tag == "inside-savez":
-                    done += 1
+                fb = st.split("/")[:2]
+                complete = [int(x[1:]) for x in fb if x.startswith("c")]
+                mine = [x for x in complete if x <= nsteps]
+                if bad is None and (had_complete or done >= 1) and not complete:
+                    bad = dict(initial=[f0, b0, t0], at=tag, directory=st, completed_dumps=done, trace=seq,
+                               what="no complete loadable result file left (the one present before this dump started was destroyed)")
+                if bad is None and done >= 1 and not any(x >= done for x in mine):
+                    bad = dict(initial=[f0, b0, t0], at=tag, directory=st, completed_dumps=done,
+                               trace=seq, what="no complete loadable result file of the current or previous step")
+                done = max([done] + mine)
             if bad is not None:
                 run.violation("crash:no-complete-file", bad)
             if oseq != [s for _, s in mseq]:
                 run.violation("corr:trace", dict(correspondence="RenoVerif.Dump.runTrace vs observed crash states of the real dump_dict",
-                                                 initial=[f0, b0], steps=nsteps, fs_events=events, observed=seq, model=mseq),
+                                                 initial=[f0, b0, t0], steps=nsteps, fs_events=events, observed=seq, model=mseq),
                               no_input=(bad is None))
     run.cov.update(programs=ntraces, disagreements_checked=ntraces, crash_points=ncrash, exhaustive=True,
                    evaluations=ncrash, distinct_nontrivial=ncrash,
-                   rule=f"9 initial directories (F,B in absent/partial/complete) x {nsteps} dumps of a real TdMpsJob x every crash instant "
+                   rule=f"18 initial directories (F,B in absent/partial/complete, temporary file absent/partial) x {nsteps} dumps of a real TdMpsJob x every crash instant "
                         "(process killed with os._exit before each file-system-mutating audit event on the result/backup file and in the middle "
                         "of np.savez); every crash point is distinct")
     # round-trip + independent fault-injection search
